@@ -18,7 +18,7 @@
    np.log (the model returns the arguments); numpy complex arithmetic = field operations of Q[i].
    All numbers are exact: Q and Q[i] (Base/QC.v). No proofs in this file. *)
 From Coq Require Import QArith List Bool Arith.
-From NT Require Import QC.
+From NT Require Import QC AR.
 Import ListNotations.
 Open Scope Q_scope.
 
@@ -43,9 +43,8 @@ Definition m2swap (A : M2) : M2 := mkM2 (m11 A) (m10 A) (m01 A) (m00 A).
 Definition q2swap (S : Q2) : Q2 := mkQ2 (q11 S) (q10 S) (q01 S) (q00 S).
 
 (* ---------------------------------------------------------------- transfer_function_xy *)
-(* freqz(c, 1)(w) = sum_k c[k] z^k at z = e^{-jw}  (Horner) *)
-Fixpoint peval (c : list C) (z : C) : C :=
-  match c with [] => c0 | a :: c' => cadd a (cmul z (peval c' z)) end.
+(* freqz(c, 1)(w) = sum_k c[k] z^k at z = e^{-jw}: AR.peval (Horner, with the value-preserving
+   normalisation cr after each step so that the model can be executed) *)
 
 (* lines 340-343:  ai = r_[1, a[:,0,0]]  bi = r_[0, a[:,0,1]]  ci = r_[0, a[:,1,0]]  di = r_[1, a[:,1,1]] *)
 Definition poly_a (a : list Q2) : list C := c1 :: map (fun m => ofQ (q00 m)) a.
